@@ -392,8 +392,65 @@ def _replay_hist():
     return bad, dict(what="; ".join(notes) or "copies agree for every call of the sequence")
 
 
+def _replay_int_input(name, rvals, r0v, L0v):
+    turb, sc, kl, ps = _mods()
+    calls = dict(structure_function_vk=lambda r: sc.structure_function_vk(r, r0v, L0v), stf_vonKarman=lambda r: kl.stf_vonKarman(r, L0v),
+                 structure_function_kolmogorov=lambda r: sc.structure_function_kolmogorov(r, r0v), stf_kolmogorov=lambda r: kl.stf_kolmogorov(r),
+                 phase_covariance=lambda r: turb.phase_covariance(r, r0v, L0v))
+    ri = numpy.array([max(1, int(round(abs(float(x))))) for x in rvals], dtype=int)
+    bad = []
+    for variant in (ri, ri.astype(numpy.int32), [int(x) for x in ri]):
+        try:
+            a = numpy.asarray(calls[name](variant if not isinstance(variant, list) else numpy.array(variant)), dtype=float)
+        except Exception as e:
+            bad.append("raises %s for integer separations" % type(e).__name__)
+            continue
+        b = numpy.asarray(calls[name](ri.astype(float)), dtype=float)
+        if a.shape != b.shape or not numpy.allclose(a, b, rtol=1e-6, atol=0):
+            bad.append("integer separations %s give %s, the same values as float64 give %s" % (ri.tolist(), a.tolist(), b.tolist()))
+    return bool(bad), dict(what="%s: %s" % (name, "; ".join(bad[:2]) or "integer and float separations agree"), r0=r0v, L0=L0v)
+
+
+def case_int_input(ctx):
+    """separations handed over as an INTEGER array (pixel counts are): every closed form returns what it returns for the
+    same values in float64 - buffers made with *_like of the input must not inherit its integer type"""
+    turb, sc, kl, ps = _mods()
+    ri = core.typed(symarr("ri", (2,)), int)
+    rf = numpy.array([e for e in ri], dtype=object).view(core.SA)          # the same values, untyped (float64)
+    pre = [z(R0.re) > 0, z(L0.re) > 0] + core.int_constraints(ri, lo=1)
+    ctx.bounds.update(separations="array of 2 symbolic integers >= 1, dtype int (and the same values as float64)", r0="symbolic > 0", L0="symbolic > 0")
+    fns = [("structure_function_vk", lambda r: sc.structure_function_vk(r, R0, L0)), ("stf_vonKarman", lambda r: kl.stf_vonKarman(r, L0)),
+           ("structure_function_kolmogorov", lambda r: sc.structure_function_kolmogorov(r, R0)), ("stf_kolmogorov", lambda r: kl.stf_kolmogorov(r)),
+           ("phase_covariance", lambda r: turb.phase_covariance(r, R0, L0))]
+    for name, f in fns:
+        ctx.encoded("aotools.%s" % name)
+
+        def go(f=f):
+            with npx.symbolic(turb, sc, kl):
+                return numpy.asarray(f(ri.copy()), dtype=object), numpy.asarray(f(rf.copy()), dtype=object)
+        paths, ex = core.run_paths(go, pre, max_paths=64)
+        ctx.explored(ex, len(paths))
+        def rp(m, name=name):
+            try:
+                rv = [float(m(e)) for e in ri]
+                v = clampv(mv(m))
+                r0v, L0v = v["r0"], v["L0"]
+            except Exception:
+                rv, r0v, L0v = [1.0, 2.0], 0.2, 25.0         # no model (solver verdict unknown): generic small separations
+            return _replay_int_input(name, rv, r0v, L0v)
+        for pi, pth in enumerate(paths):
+            hyp = pre + pth.pc
+            if pth.exc is not None:
+                ctx.prove("%s path%d raises %s for integer separations" % (name, pi, type(pth.exc).__name__), hyp, z3.BoolVal(False), replay=rp, axioms=False)
+                continue
+            a, b = pth.out
+            ctx.prove("%s path%d: integer-typed separations give the same result as the same values in float64" % (name, pi), hyp,
+                      all_eq(a, b) if a.shape == b.shape else z3.BoolVal(False), replay=rp, timeout_ms=30000, replay_on_unknown=True)
+    ctx.prove("guard: preconditions satisfiable", pre, z3.BoolVal(False), expect="sat", kind="vacuity", axioms=False)
+
+
 def build_cases(tier):
-    return [("copies", case_copies, {}), ("history", case_history, {}), ("covariance-vs-structure-function", case_cov_vs_sf, {}), ("r0-scaling", case_scaling, {}), ("psd", case_psd, {})]
+    return [("copies", case_copies, {}), ("integer-separations", case_int_input, {}), ("history", case_history, {}), ("covariance-vs-structure-function", case_cov_vs_sf, {}), ("r0-scaling", case_scaling, {}), ("psd", case_psd, {})]
 
 
 if __name__ == "__main__":
